@@ -33,7 +33,7 @@ def exhaustive(tier):
 def required(tier):
     return {"cross_dimension_checked": 5000, "multi_step_chains": 300, "unreachable_checked": 200,
             "same_dimension_checked": 300, "forms": 6, "redefinition_cases": 100,
-            "param_from_enclosing": 100, "tie_cases": 5}
+            "param_from_enclosing": 100, "tie_cases": 5, "inplace_conversions": 1000}
 
 
 def shards(tier, seed):
@@ -144,6 +144,17 @@ def judge(rec, pint, got, cands, w, fields, cross, chains_len=None):
         rec.violation("conversion-raised", dict(w, got=repr(got)[:300]), **fields)
 
 
+INPLACE = [False]   # this case converts in place (ito on a copy) instead of with to(): documented as equivalent
+
+
+def conv(q, dst, *ctx, **kw):
+    if INPLACE[0]:
+        q2 = q.__class__(q.magnitude, q.units)
+        q2.ito(dst, *ctx, **kw)
+        return q2
+    return q.to(dst, *ctx, **kw)
+
+
 def attempt(pint, fn):
     try:
         q = fn()
@@ -223,27 +234,31 @@ def run_bundled(spec, rec, rng, pint, pintload, R, CM):
         key_name = rng.choice([cname, alias or cname])
         form = rng.choice(("to-call", "with", "enable", "decorator", "object", "is_compatible"))
         rec.observe("forms", form)
+        INPLACE[0] = rng.random() < 0.35
+        if INPLACE[0]:
+            rec.count("inplace_conversions")
+        rec.observe("entry_points", form + ("/ito" if INPLACE[0] else "/to"))
         q = Q(x, ua)
         if form == "to-call":
-            got = attempt(pint, lambda: q.to(ub, key_name, **kwargs))
+            got = attempt(pint, lambda: conv(q, ub, key_name, **kwargs))
         elif form == "with":
             def f():
                 with ureg.context(key_name, **kwargs):
-                    return q.to(ub)
+                    return conv(q, ub)
             got = attempt(pint, f)
         elif form == "enable":
             def f():
                 ureg.enable_contexts(key_name, **kwargs)
                 try:
-                    return q.to(ub)
+                    return conv(q, ub)
                 finally:
                     ureg.disable_contexts(1)
             got = attempt(pint, f)
         elif form == "decorator":
-            fn = ureg.with_context(key_name, **kwargs)(lambda z: z.to(ub))
+            fn = ureg.with_context(key_name, **kwargs)(lambda z: conv(z, ub))
             got = attempt(pint, lambda: fn(q))
         elif form == "object":
-            got = attempt(pint, lambda: q.to(ub, ureg._contexts[cname], **kwargs))
+            got = attempt(pint, lambda: conv(q, ub, ureg._contexts[cname], **kwargs))
         else:
             res = attempt(pint, lambda: q.is_compatible_with(ub, key_name, **kwargs))
             want = not (cands == "dimerr" or cands == {"dimerr"})
@@ -273,7 +288,7 @@ def run_bundled(spec, rec, rng, pint, pintload, R, CM):
             rec.sample(dict(w, result=repr(got)[:80]))
         # no context: cross-dimension must fail, same-dimension unchanged
         if rng.random() < 0.2:
-            plain = attempt(pint, lambda: q.to(ub))
+            plain = attempt(pint, lambda: conv(q, ub))
             if cross and plain[0] != "dimerr":
                 rec.violation("cross-dimension-without-context", dict(w, got=repr(plain)), context="none",
                               form="plain", workload="bundled")
@@ -418,6 +433,10 @@ def run_generated(spec, rec, rng, pint, R, CM):
                 entries.append((name, alias, kw))
             form = rng.choice(("enable", "with-nested", "single-call", "to-call", "object", "alias"))
             rec.observe("forms", form)
+            INPLACE[0] = rng.random() < 0.35
+            if INPLACE[0]:
+                rec.count("inplace_conversions")
+            rec.observe("entry_points", form + ("/ito" if INPLACE[0] else "/to"))
             if form in ("single-call", "to-call"):
                 common = {}
                 for _, _, kw in entries:
@@ -474,13 +493,13 @@ def run_generated(spec, rec, rng, pint, R, CM):
                     for name, alias, kw in entries:
                         ureg.enable_contexts(name, **kw)
                     try:
-                        return q.to(ub)
+                        return conv(q, ub)
                     finally:
                         ureg.disable_contexts(len(entries))
                 if form in ("with-nested", "object", "alias"):
                     def nest(i):
                         if i == len(entries):
-                            return q.to(ub)
+                            return conv(q, ub)
                         name, alias, kw = entries[i]
                         key = name if form == "with-nested" else alias if form == "alias" else ureg._contexts[name]
                         with ureg.context(key, **kw):
@@ -488,8 +507,8 @@ def run_generated(spec, rec, rng, pint, R, CM):
                     return nest(0)
                 if form == "single-call":
                     with ureg.context(*[n for n, _, _ in entries], **entries[0][2]):
-                        return q.to(ub)
-                return q.to(ub, *[n for n, _, _ in entries], **entries[0][2])
+                        return conv(q, ub)
+                return conv(q, ub, *[n for n, _, _ in entries], **entries[0][2])
             got = attempt(pint, run_pint)
             if ureg._active_ctx.contexts:
                 rec.violation("context-left-active", {"text": text, "entries": str(entries), "form": form},
@@ -535,6 +554,10 @@ def order_flips(rec, pint, ureg, m, CM, ctxs, text, built, rng):
         x = F(rng.randint(1, 99))
         for order in ((c1, c2), (c2, c1), (c1, c2), (c2, c1)):
             form = rng.choice(("single-call", "with-nested", "enable", "to-call"))
+            INPLACE[0] = rng.random() < 0.35
+            if INPLACE[0]:
+                rec.count("inplace_conversions")
+            rec.observe("entry_points", form + ("/ito" if INPLACE[0] else "/to"))
             names = [n for n, _ in order]
             stack = [CM.ActiveCtx(n, {k: F(v) for k, v in m.contexts[n]["defaults"].items()}) for n in names]
             try:
@@ -547,19 +570,19 @@ def order_flips(rec, pint, ureg, m, CM, ctxs, text, built, rng):
             def run():
                 if form == "single-call":
                     with ureg.context(*names):
-                        return q.to(dst)
+                        return conv(q, dst)
                 if form == "to-call":
-                    return q.to(dst, *names)
+                    return conv(q, dst, *names)
                 if form == "enable":
                     for n in names:
                         ureg.enable_contexts(n)
                     try:
-                        return q.to(dst)
+                        return conv(q, dst)
                     finally:
                         ureg.disable_contexts(len(names))
                 with ureg.context(names[0]):
                     with ureg.context(names[1]):
-                        return q.to(dst)
+                        return conv(q, dst)
             got = attempt(pint, run)
             rec.count("order_flip_conversions")
             rec.case(("flip", text[:40], u, tuple(names), form), nontrivial=True)
